@@ -17,7 +17,10 @@ SENT_PRIO = -1000
 # strategies
 kwvals = st.integers(0, 3)
 kw = st.dictionaries(st.sampled_from("abc"), kwvals, max_size=2)
+# (conditions may also read global state - the machine variable cx, which handlers change: a condition is evaluated when
+# its handler's turn comes, not when the dispatch begins)
 CONDS = [None, None, None, "a>1", "a==b", "b<2", "c!=0", "a>=0"]
+CX_CONDS = ["machine.cx==0", "machine.cx>0"]       # plain/boolean/relay programs only (queue events: C02 sub-check qcond)
 RETS = [None, None, None, False, True, {"a": 3}, {"b": 0, "c": 2}, {"d": 1}, "x", 0]
 # blocking (what shots with `block: true` and the block_event_player do): a handler returns a minimum priority, handlers
 # registered with a blocking facility and a lower priority are skipped for the rest of the dispatch
@@ -37,6 +40,8 @@ def _cond_eval(cond, kwargs):
     """Independent evaluation of the tiny condition language; a missing name makes the condition false."""
     if cond is None:
         return True
+    if "machine.cx" in cond:
+        return bool(eval(cond.replace("machine.cx", "cx"), {"__builtins__": {}}, {"cx": kwargs.get("__cx__", 0)}))   # pylint: disable=eval-used
     env = {}
     for n in "abc":
         if n in cond:
@@ -63,6 +68,8 @@ def actions(depth, nspecs, queue=False, max_size=3, only_posts=False):
             st.tuples(st.just("rm_method"), spec_i),
             st.tuples(st.just("replace"), spec_i)]
     if not queue:
+        alts += [st.tuples(st.just("setvar"), st.integers(0, 2))]
+    if not queue:
         # futures: wait_for_event / wait_for_any_event and post_async / post_relay_async
         alts += [st.tuples(st.just("wait_any"), st.lists(st.integers(0, NEV - 1), min_size=1, max_size=3, unique=True)),
                  st.tuples(st.just("post_async"), st.integers(0, NEV - 1), st.sampled_from([None, "relay"]), kw)]
@@ -80,7 +87,7 @@ def spec(nspecs, queue=False):
         "event": st.integers(0, NEV - 1),
         "prio": st.integers(-3, 3),
         "kwargs": kw,
-        "cond": st.sampled_from(CONDS),
+        "cond": st.sampled_from(CONDS if queue else CONDS + CX_CONDS),
         "script": actions(2, nspecs, queue),
         "ret": st.sampled_from(RETS if queue else RETS + MP_RETS + MP_RETS),
     }
@@ -153,6 +160,7 @@ class Interp:
         self.waiters_on_event = {}
         self.n_waits = 0
         self.async_futs = {}
+        self.machine.variables.set_machine_var("cx", 0)
         if case.get("sentinels", True):
             for e in range(NEV):
                 self.ev.add_handler("e%d" % e, functools.partial(self._sentinel, e), SENT_PRIO)
@@ -386,6 +394,9 @@ class Interp:
                 self._log("ASYNCDONE", pid, self._strip(f.result()), self._t())
             fut.add_done_callback(done)
             self.async_futs[pid] = fut
+        elif kind == "setvar":
+            self.machine.variables.set_machine_var("cx", a[1])
+            self._log("SETVAR", a[1], list(self.ctx))
         elif kind == "add":
             self._add(a[1])
         elif kind == "rm_key":
@@ -484,10 +495,14 @@ class Interp:
         self._log("SETTLE")
         # bounded-liveness horizon: as long as a clear scheduled by the program itself is still outstanding keep going
         # (a self-nesting program can chain a few dozen 50 ms waits), then 2 s more than every generated wait
-        for _ in range(400):
-            if self.pending_clears <= 0 and self.sleeping <= 0:
+        # (steps off the millisecond grid and three idle observations in a row: a single look can fall exactly between
+        # one handler's clear and the next handler's wait of a long chain)
+        idle = 0
+        for _ in range(1200):
+            idle = idle + 1 if (self.pending_clears <= 0 and self.sleeping <= 0) else 0
+            if idle >= 3:
                 break
-            self.rig.advance(0.25)
+            self.rig.advance(0.0837)
         self.rig.advance(2.0)
         self._log("END")
         return self.log
@@ -521,6 +536,7 @@ class Oracle:
         order = []          # INV_START order
         reg_events = []     # (pos, "REG"/"UNREG", insts, spec, ctx)
         cbs = {}
+        self.cx_log = []        # (log position, value) of every change of the machine variable cx
         for pos, e in enumerate(log):
             k = e[0]
             if k == "POST":
@@ -549,6 +565,8 @@ class Oracle:
                     posts[e[1]]["cb_pos"].append(pos)
                     posts[e[1]]["cb_kwargs"] = e[2]
                     posts[e[1]]["cb_t"] = e[3]
+            elif k == "SETVAR":
+                self.cx_log.append((pos, e[1]))
             elif k == "WAIT":
                 invs[e[1]]["wait"] = (pos, e[3])
             elif k == "CLEAR":
@@ -649,6 +667,15 @@ class Oracle:
                 self.v("post_async-resolved-early", "post_async pid %d resolved at log position %d before handler invocations %r "
                        "of its own subtree ran" % (pid, d[0]["pos"], late[:5]))
 
+    def cx_at(self, pos):
+        """Value of the machine variable cx just before log position pos."""
+        val = 0
+        for p_, v_ in self.cx_log:
+            if p_ >= pos:
+                break
+            val = v_
+        return val
+
     # registry replay -------------------------------------------------------------------------
     def live_at(self, pos):
         live = set()
@@ -706,7 +733,10 @@ class Oracle:
                 self.v("kwargs-merge" + (":relay" if p["type"] == "relay" else ""),
                        "handler %r of pid %d received %r, expected posted %r overridden by registered %r = %r" % (
                            i["spec"], pid, i["kwargs"], fold, reg, exp))
-            if not isinstance(i["spec"], str) and not _cond_eval(self.specs[i["spec"]]["cond"], exp):
+            sp_i = None if isinstance(i["spec"], str) else self.specs[i["spec"]]
+            cx_unobservable = sp_i is not None and sp_i["cond"] and "machine.cx" in sp_i["cond"] and (
+                sp_i.get("wait") or [None])[0] == "async"      # a coroutine logs its start later than its condition was read
+            if sp_i is not None and not cx_unobservable and not _cond_eval(sp_i["cond"], dict(exp, __cx__=self.cx_at(i["pos"]))):
                 self.v("condition-false-but-invoked", "handler %r (condition %r) invoked with %r" % (
                     i["spec"], self.specs[i["spec"]]["cond"], exp))
             if not isinstance(i["spec"], str) and _blocked(fold.get("_min_priority"), self.specs[i["spec"]].get("facility"),
@@ -810,8 +840,7 @@ class Oracle:
     def _fold_states_for(self, invs, sp, p):
         """Possible kwargs states a non-invoked handler of priority sp.prio could have seen (relay results are folded in;
         for other events only a returned _min_priority is)."""
-        if p["type"] == "queue":
-            return [p["kwargs"]]
+        isq = p["type"] == "queue"
         relay = p["type"] == "relay"
         states = []
         fold = dict(p["kwargs"])
@@ -821,13 +850,26 @@ class Oracle:
             before_ok = all(prs[j] >= sp["prio"] for j in range(k))
             after_ok = all(prs[j] <= sp["prio"] for j in range(k, len(invs)))
             if before_ok and after_ok:
-                states.append(dict(fold))
+                # the global variable cx when this handler's turn came: its turn is followed at once by the next invoked
+                # handler (slot k) or by the end of the dispatch (last slot; for a queue event its callback)
+                if k < len(invs):
+                    cxs = [self.cx_at(invs[k]["pos"])]
+                elif not isq:
+                    cxs = [self.cx_at(invs[-1]["end"] if invs[-1]["end"] is not None else invs[-1]["pos"])] if invs else [0, 1, 2]
+                elif p.get("cb_pos"):
+                    cxs = [self.cx_at(p["cb_pos"][0])]
+                else:
+                    cxs = [0, 1, 2]       # not observable: left open
+                for cx in cxs:
+                    states.append(dict(fold, __cx__=cx))
+            if isq:
+                continue
             if k < len(invs) and invs[k].get("retdict") is not None:
                 if relay:
                     fold.update(invs[k]["retdict"])
                 elif "_min_priority" in invs[k]["retdict"]:
                     fold["_min_priority"] = invs[k]["retdict"]["_min_priority"]
-        return states or [p["kwargs"]]
+        return states or [dict(p["kwargs"], __cx__=cx) for cx in (0, 1, 2)]
 
     def check_delivery_no_span(self, p):
         # event without any invocation and no sentinels: fine if no required handler existed at post time
@@ -843,6 +885,8 @@ class Oracle:
                 continue
             if p["type"] == "relay":
                 continue
+            if sp["cond"] and "machine.cx" in sp["cond"]:
+                continue        # when the dispatch ran is not observable here
             if _cond_eval(sp["cond"], dict(p["kwargs"], **sp["kwargs"])):
                 self.v("handler-missed:no-dispatch", "event pid %d (e%d) was never delivered to handler spec %d which was "
                        "registered from post to end" % (p["pid"], p["event"], s))
